@@ -1251,6 +1251,7 @@ func (d *drv) pathStream() {
 	}
 	d.slotPathStream()
 	d.serAttrStream()
+	d.degeneratePathStream()
 	// path strings resolved against the document / a context
 	ctxBytes := []byte(`{"@context":{"@vocab":"urn:v:","id":"@id","type":"@type","T":{"@id":"urn:v:T","@context":{"f":{"@id":"urn:v:f","@type":"http://www.w3.org/2001/XMLSchema#integer"}}}}}`)
 	for _, ps := range []string{"", ".", "..", "s", "s.", ".s", "p.q", "p.q.0", "p.q.-1", "p.q.99999999999999999999", "p..q", " ", "s. ", "\x00", long, "p." + long, strings.Repeat("p.", 2000) + "q", "T.f", "T..f", "f"} {
@@ -1773,4 +1774,170 @@ func (d *drv) serAttrStream() {
 			run("VerifyProof(binding)", func() error { return vc.VerifVerifyCoreClaim(context.Background(), claim, mzOpts) })
 		}
 	}
+}
+
+// ------------------------------- (xi) paths that continue below degenerate values
+// For every value shape: paths that go on (with a name, with an index) below an empty
+// array, an empty object, null, a scalar, arrays of scalars / of empty arrays / of
+// objects, nested empty arrays; empty segment names, leading / trailing dots.
+var shapeTerms = []string{"emptyArr", "emptyObj", "nul", "scalar", "num", "scalars", "emptyArrs", "nested", "objs", "objEmptyArr", "label", "x"}
+
+func shapeContext() map[string]any {
+	c := map[string]any{"id": "@id", "type": "@type"}
+	for _, t := range shapeTerms {
+		c[t] = map[string]any{"@id": "urn:v:" + t}
+	}
+	return c
+}
+
+// shapeBody: mzSafe replaces the property-less blank nodes (which the merklizer rejects:
+// "BlankNode is not supported yet") by identified nodes, so that the queries behind
+// merklization (ResolveDocPath on the merklizer, fillSlot) are reached
+func shapeBody(mzSafe bool) map[string]any {
+	b := shapeBodyRaw()
+	if mzSafe {
+		b["emptyObj"] = map[string]any{"id": "urn:e"}
+		b["objEmptyArr"] = map[string]any{"id": "urn:o", "x": []any{}, "label": []any{map[string]any{"id": "urn:o2", "x": []any{}}}}
+		b["objs"] = []any{map[string]any{"id": "urn:o3", "label": "l0"}, map[string]any{"id": "urn:o4"}}
+	}
+	return b
+}
+
+func shapeBodyRaw() map[string]any {
+	return map[string]any{
+		"emptyArr": []any{}, "emptyObj": map[string]any{}, "nul": nil, "scalar": "s", "num": 5, "scalars": []any{"a", "b"},
+		"emptyArrs": []any{[]any{}, []any{}}, "nested": []any{[]any{[]any{}}}, "objs": []any{map[string]any{"label": "l0"}, map[string]any{}},
+		"objEmptyArr": map[string]any{"x": []any{}, "label": []any{map[string]any{"x": []any{}}}},
+	}
+}
+
+func shapePaths() []string {
+	var out []string
+	tails := []string{"", ".label", ".0", ".1", ".label.x", ".label.0", ".0.label", ".0.0", ".0.0.0", ".0.0.label", ".x", ".x.label", ".x.0", ".label.0.x.label", ".label.0.x.0",
+		".", "..label", ".label.", "..0", ".0.", ". ", ".-1", ".+0", ".00", ".0x0", ".4294967296", ".2147483648", ".99999999999999999999"}
+	for _, k := range shapeTerms[:10] {
+		for _, t := range tails {
+			out = append(out, k+t, "."+k+t)
+		}
+	}
+	return append(out, "", ".", "..", "...", "a..b", ".label", "label.", "0", "0.0", "-1")
+}
+
+func (d *drv) degeneratePathStream() {
+	body := shapeBody(false)
+	body["@context"] = shapeContext()
+	body["id"] = "urn:a"
+	doc := mustJSON(body)
+	sbody := shapeBody(true)
+	sbody["@context"] = shapeContext()
+	sbody["id"] = "urn:a"
+	sdoc := mustJSON(sbody)
+	var mz *merklize.Merklizer
+	mo := guard(watchdog, func() error {
+		var err error
+		mz, err = merklize.MerklizeJSONLD(context.Background(), bytes.NewReader(sdoc), merklize.WithDocumentLoader(d.loader))
+		return err
+	})
+	d.rep.Count("degenerate-doc:merklize:" + mo.Class)
+	if mo.Class != "ok" {
+		if mo.Class == "panic" || mo.Class == "hang" {
+			d.fail("MerklizeJSONLD", mo, map[string]any{"stream": "degenerate-path", "doc": string(sdoc)})
+		} else {
+			d.rep.Fail("c12-generator", "degenerate-shape document not merklized: "+mo.Msg, string(sdoc))
+		}
+	}
+	for _, ps := range shapePaths() {
+		ps := ps
+		input := map[string]any{"stream": "degenerate-path", "path": ps, "doc": string(doc)}
+		for name, f := range map[string]func() error{
+			"NewPathFromDocument": func() error { _, err := merklize.NewPathFromDocument(doc, ps); return err },
+			"Options.NewPathFromDocument": func() error {
+				p, err := merklize.Options{DocumentLoader: d.loader}.NewPathFromDocument(doc, ps)
+				if err != nil {
+					return err
+				}
+				_, err = p.MtEntry()
+				return err
+			},
+			"Merklizer.ResolveDocPath": func() error {
+				if mz == nil {
+					return fmt.Errorf("no merklizer")
+				}
+				p, err := mz.ResolveDocPath(ps)
+				if err != nil {
+					return err
+				}
+				_, _, err = mz.Proof(context.Background(), p)
+				return err
+			},
+		} {
+			qo := guard(watchdog, f)
+			d.rep.Evaluations++
+			d.rep.Count("degenerate-path:" + name + ":" + qo.Class)
+			d.rep.Distinct("degenerate-path:" + name + ps)
+			if qo.Class == "panic" || qo.Class == "hang" {
+				d.fail(name, qo, input)
+			}
+		}
+	}
+	// the same below credentialSubject, through an iden3_serialization slot path (fillSlot)
+	subj := d.bundles[0].Cred["credentialSubject"].(map[string]any)["id"]
+	claim, _ := claimFromHex(str(asMap(d.bundles[0].Cred["proof"].([]any)[0]), "coreClaim"))
+	var slotPaths []string
+	for _, ps := range shapePaths() {
+		if ps != "" && !strings.ContainsAny(ps, "&= ") && len(slotPaths) < d.cfg.Pick(140, 10000) && (d.cfg.Thorough() || strings.Count(ps, ".") <= 2) {
+			slotPaths = append(slotPaths, ps)
+		}
+	}
+	parallel(len(slotPaths), func(i int) {
+		ps := slotPaths[i]
+		// the terms are defined in the outer context as well: a type-scoped context does not
+		// propagate to the nested nodes
+		inner := shapeContext()
+		inner["@version"], inner["iden3_serialization"] = 1.1, "iden3:v1:slotIndexA="+ps
+		outer := shapeContext()
+		outer["@version"] = 1.1
+		outer["ShapeCred"] = map[string]any{"@id": "urn:c12:ShapeCred", "@context": inner}
+		ctxDoc := mustJSON(map[string]any{"@context": []any{outer}})
+		url := fmt.Sprintf("https://c12.invalid/ctx/shape-%d.jsonld", i)
+		if err := d.loader.Add(url, ctxDoc); err != nil {
+			return
+		}
+		cs := shapeBody(true)
+		cs["id"], cs["type"] = subj, "ShapeCred"
+		cred := map[string]any{
+			"id": "urn:uuid:c12-shape", "@context": []any{"https://www.w3.org/2018/credentials/v1", "https://schema.iden3.io/core/jsonld/iden3proofs.jsonld", url},
+			"type": []any{"VerifiableCredential", "ShapeCred"}, "issuanceDate": "2023-12-21T16:35:46Z", "credentialSubject": cs,
+			"credentialStatus": map[string]any{"id": "urn:x", "type": statusType, "revocationNonce": 1}, "issuer": d.bundles[0].Cred["issuer"],
+			"credentialSchema": map[string]any{"id": "https://c12.invalid/schema.json", "type": "JsonSchema2023"},
+		}
+		var vc verifiable.W3CCredential
+		if err := json.Unmarshal(mustJSON(cred), &vc); err != nil {
+			return
+		}
+		input := map[string]any{"stream": "degenerate-slot-path", "slot_path": ps, "credential": json.RawMessage(mustJSON(cred))}
+		mzOpts := []merklize.MerklizeOption{merklize.WithDocumentLoader(d.loader)}
+		for name, f := range map[string]func() error{
+			"W3CCredential.ToCoreClaim(fillSlot)": func() error {
+				_, err := vc.ToCoreClaim(context.Background(), &verifiable.CoreClaimOptions{RevNonce: 1, SubjectPosition: verifiable.CredentialSubjectPositionIndex, MerklizerOpts: mzOpts})
+				return err
+			},
+			"VerifyProof(binding,fillSlot)": func() error {
+				if claim == nil {
+					return nil
+				}
+				return vc.VerifVerifyCoreClaim(context.Background(), claim, mzOpts)
+			},
+		} {
+			qo := guard(watchdog, f)
+			d.mu.Lock()
+			d.rep.Evaluations++
+			d.rep.Count("degenerate-slot-path:" + name + ":" + qo.Class)
+			d.rep.Distinct("degenerate-slot:" + name + ps)
+			d.mu.Unlock()
+			if qo.Class == "panic" || qo.Class == "hang" {
+				d.fail(name, qo, input)
+			}
+		}
+	})
 }
